@@ -198,17 +198,49 @@ def rule_r4(F):
     r.inst("import rerun gated", {"import_calls": len(imp), "gates": len(g)})
     if not imp or not g:
         r.bad(b.path, "rerun", relfile(b.file), b.line, "when no progress is made the remaining imports are not re-run with their error propagated: an unresolvable import would loop forever or be dropped")
-    # Ok return guarded by new_len == 0
-    h = b.hir["value"]
-    ok = False
-    for iff in hir.nodes(h, "if"):
-        c = iff["cond"]
-        lits = [n.get("v") for n in hir.walk(c) if n.get("k") == "lit"]
-        if c.get("k") == "bin" and c.get("op") == "==" and lits == [0] and any("Ok" in str(hir.result_desc(x.get("e"))) for x in hir.nodes(iff["then"], "ret")):
-            ok = True
-    rets = [x for x in hir.nodes(h, "ret") if "Ok" in str(hir.result_desc(x.get("e")))]
-    r.inst("Ok only when empty", {"ok": ok, "ok_returns": len(rets)})
-    if not ok or len(rets) != 1:
+    # the Ok exit is taken only on the 'nothing left' edge of a test of the number of unresolved imports (however it is spelled:
+    # `if n == 0`, `match n { 0 => .. }`, `is_empty()`)
+    dom = mir.dominators(b)
+    oks = [bi for bi, blk in enumerate(b.blocks) for st in blk["stmts"] if st["k"] == "assign" and st["p"] == [0] and st["rv"]["k"] == "agg" and st["rv"].get("variant") == "Ok"]
+    lens = {bi for bi, t in mir.calls(b) if hir.last(mir.callee_def(t) or "") in ("len", "is_empty")}
+    ok = bool(oks)
+    detail = []
+    for ob in oks:
+        guarded = False
+        for si, sblk in enumerate(b.blocks):
+            tt = sblk["term"]
+            if tt["k"] != "switch" or si not in dom[ob] or not mir.is_place_op(tt["o"]):
+                continue
+            l = tt["o"][1][0]
+            srcs = mir.back_calls(b, defs, l) & lens
+            if not srcs:
+                continue
+            # which edges lead to the Ok exit?
+            via = [(v, x) for v, x in tt["targets"] if x == ob or ob in mir.reachable_from(b, x, stop={si})]
+            other = tt["otherwise"] == ob or ob in mir.reachable_from(b, tt["otherwise"], stop={si})
+            kind = None
+            ds = defs.whole_defs(l)
+            if any(hir.last(mir.callee_def(b.blocks[x]["term"]) or "") == "is_empty" for x in srcs) and len(ds) == 1 and ds[0][2] == "call":
+                kind = "is_empty"
+                zero_edge = (not any(v == 0 for v, _ in via)) and (other or any(v == 1 for v, _ in via))
+            elif len(ds) == 1 and ds[0][2] == "assign" and ds[0][3]["rv"]["k"] == "bin" and ds[0][3]["rv"].get("op") in ("Eq", "Ne"):
+                rv = ds[0][3]["rv"]
+                consts = [mir.op_const(o) for o in (rv["a"], rv["b"])]
+                if any(c is not None and c.get("v") == 0 for c in consts):
+                    kind = rv["op"] + " 0"
+                    true_edge = other or any(v == 1 for v, _ in via)
+                    false_edge = any(v == 0 for v, _ in via)
+                    zero_edge = (true_edge and not false_edge) if rv["op"] == "Eq" else (false_edge and not true_edge)
+                else:
+                    zero_edge = False
+            else:
+                kind = "switch on the count"
+                zero_edge = [v for v, _ in via] == [0] and not other
+            detail.append({"line": tt.get("line"), "test": kind, "ok_only_when_zero": zero_edge})
+            guarded = guarded or zero_edge
+        ok = ok and guarded
+    r.inst("Ok only when empty", {"ok": ok, "ok_returns": len(oks), "tests": detail[:4]})
+    if not ok or len(oks) != 1:
         r.bad(b.path, "Ok exit", relfile(b.file), b.line, "imports() must return Ok only when no unresolved import is left")
     return r
 
@@ -224,6 +256,8 @@ def str_lits(F, path_pred):
         for n in hir.walk(b.hir.get("value") or {}):
             if n.get("k") == "lit" and n.get("lk") == "str":
                 out.setdefault(p, set()).add(n["v"])
+            if n.get("k") == "plit" and isinstance(n.get("v"), str) and "str" in str(n.get("ty", "")):
+                out.setdefault(p, set()).add(n["v"])  # a string literal used as a pattern (`matches!(stem, "pkg" | "mod")`)
             if n.get("k") == "lit" and n.get("lk") == "bytestr" and any("FormatLiteral" in m for m in (n.get("mac") or [])):
                 pre = fmt_prefix(n["v"])
                 if pre:
@@ -283,6 +317,13 @@ def rule_r6(F):
     for n in hir.walk(gf.hir["value"]):
         if n.get("k") == "lit" and n.get("lk") == "bytestr" and any("FormatLiteral" in m for m in (n.get("mac") or [])):
             pre = fmt_prefix(n["v"]) or pre
+    if pre is None:
+        # the qualified name may be built by a helper: take the prefix of the key that is looked up in `functions`
+        from .c19 import lookup_key_prefixes
+        looked = lookup_key_prefixes(F, gf) or []
+        cands = {x for srcs, _ln in looked for x in srcs}
+        if len(cands) == 1 and None not in cands:
+            pre = cands.pop()
     sep_full = [n.get("v") for n in hir.walk(fn_.hir["value"]) if n.get("k") == "lit" and n.get("lk") == "char"]
     sep_mod = [hir.strip(c["args"][0]).get("v") for c in hir.nodes(mn.hir["value"], "mcall") if c["m"] == "join" and c["args"]]
     r.inst("get_function prefix", {"prefix": pre})
@@ -500,7 +541,7 @@ def rule_r9(F):
     length read with nothing but that one push after it, or `len() - 1` read with nothing but that push before it - also when the
     index travels through the return value of a helper.  (An index read after the child's own descendants were pushed names the
     last descendant: the nested directory becomes a global module and its last file gets two parents.)"""
-    r = RuleResult("C13.R9", "module tree: the index registered as a child is the position at which that child's own file was pushed", floor=2)
+    r = RuleResult("C13.R9", "module tree: the index registered as a child is the position at which that child's own file was pushed", floor=1)
     bodies = [b for b in F.bodies_in(["src/file_tree.rs"]) if b.mir and "::tests::" not in b.path]
     by = {b.path: b for b in bodies}
     memo = {}
@@ -563,7 +604,7 @@ def rule_r9(F):
                 r.bad(b.path, "child index is not the position of the child's own push", relfile(b.file), t.get("line"),
                       "the index pushed into `children` is %s, not the position at which the child's own file was pushed: a directory module with children is registered under the index of "
                       "its last descendant (the directory itself gets no parent and becomes a global module; that descendant gets two parents)" % why)
-    if n < 2:
+    if n < 1:
         r.missing("registrations of a child index in src/file_tree.rs (found %d)" % n)
     return r
 
